@@ -46,6 +46,11 @@ def run(ctx):
                 hist.append(h)
             job["history"] = hist
             js.append(job)
+    for j in jobs.param_sweep_jobs(rng, optimizers.names(), kinds=("cont-sym", "cont-tiny"), max_cycles=3):
+        if rng.random() < 0.35:
+            j["history"] = [{"seed": rng.randrange(1, 10 ** 6), "which": "same"}]
+            j["stop"] = "budget"
+            js.append(j)
     res = pmap(rel.run_c08, js)
     for j, r in zip(js, res):
         if "setup_error" in r:
